@@ -637,12 +637,17 @@ EXTRA_ATOMS = ['[dh\\sa-z]', '[a-z\\sdh]', '[dha-z]', '[ceb-y]', '[cea-b]', '[\\
 
 
 @ob(engine='z3', budget=300, bound='all subject strings; bracket expressions whose members are merged in several steps and the blocks of the Unicode '
-    'versions up to the running interpreter\'s (independent block ranges), each alone and with * (XSD 1.0 and XPath anchored mode)',
+    'versions up to the running interpreter\'s (independent block ranges), each alone and with * (XSD 1.0 and XPath anchored mode); '
+    '3 patterns with an optional $',
     funcs=[R + ':translate_pattern', 'elementpath/regex/unicode_subsets.py:UnicodeSubset.add', 'elementpath/regex/unicode_subsets.py:UnicodeData.__init__'])
 def language_extra_atoms(ctx):
     q = Queries(timeout_s=20, diff_binary=False)
     cex = []
     counts = {}
+    for p in ('a$?b', 'a${0,1}b', 'a($)?b'):
+        # optional anchors (XPath mode only; anchors under * + {n} are not encodable: see quantified_anchor_matches)
+        r = _decide(p, '1.0', False, q, cex, 'P=%r xsd=1.0 xpath' % p, xpath=True)
+        counts[r] = counts.get(r, 0) + 1
     for a in EXTRA_ATOMS:
         for p in (a, a + '*', 'x' + a):
             if _is_known(p):
@@ -654,3 +659,26 @@ def language_extra_atoms(ctx):
     res = q.result(cex[:20], detail=dict(programs=sum(counts.values()), outcomes=counts, distinct_patterns=3 * len(EXTRA_ATOMS)))
     res['detail']['queries'] = [x for x in q.log if x.get('result') != 'unsat'][:60]
     return res
+
+
+# --- quantified anchors (not encodable in E3 when under * + {n}, or when the translation puts a look-ahead under a quantifier): fn:matches on a
+#     table of subjects against the reference matcher ------------------------------------------------------------------------------------------
+
+QA_PATTERNS = ('a$?b', 'a$*b', 'a${0}b', 'a${0,1}b', 'a$+', '^?a', '^*ba', '(^a)?b', 'a($)?b', '(a$)*b', 'a$', '^a$?')
+QA_SUBJECTS = ('ab', 'a', 'b', 'aab', 'ba', '', 'abab', 'a' + chr(10) + 'b', 'a' + chr(10))
+T_QA = parse_all({'m': 'matches($s, $p)', 'r': 'replace($s, $p, "[$0]")', 't': 'count(tokenize($s, $p))'})
+
+
+@ob(budget=200, bound='12 patterns with a quantifier on ^ or $ x 9 subjects (indices chosen by the solver): fn:matches = the reference XSD/XPath '
+                      'matcher in search mode',
+    funcs=[R + ':translate_pattern (anchors under quantifiers)', F2 + ':matches'])
+def quantified_anchor_matches(pi: int, si: int) -> bool:
+    """
+    pre: 0 <= pi <= 11 and 0 <= si <= 8
+    post: _
+    """
+    p = QA_PATTERNS[[k for k in range(12) if k == pi][0]]
+    subj = QA_SUBJECTS[[k for k in range(9) if k == si][0]]
+    # search mode = the whole subject matches  [\s\S]* (?:P) [\s\S]*  (anchors inside P still refer to the ends of the subject)
+    want = xsd_match('[' + chr(92) + 's' + chr(92) + 'S]*(?:' + p + ')[' + chr(92) + 's' + chr(92) + 'S]*', '1.0', False, subj, xpath=True)
+    return ev(T_QA['m'], s=subj, p=p) == [want]
